@@ -18,8 +18,9 @@ PLAN = {
         'fronts': ['pyvc.fronts.tables:run', 'pyvc.fronts.effects:run_c10'],
         'bounded': ['c10_histories.py'],
         'assumptions': ['linear(name): each class inherits a given registry through a single chain (no registry diamonds in user lattices)',
-                        'add_implicit_resolver / add_path_resolver are covered by the bounded stand-in and the module-init run only (their loop contracts are not discharged yet)'],
-        'explanation': 'copy-on-write contract of the add_* class methods over an arbitrary class lattice; module-init tables; API helper targets',
+                        'add_path_resolver is covered by the bounded stand-in and the module-init run only (its path-normalisation loop is not under contract)',
+                        'add_implicit_resolver: separation of the per-character lists between classes (sep) and "values are lists" are preconditions: they hold for the shipped tables by the module-init run and are preserved by the function, the induction over arbitrary registration histories is the bounded stand-in'],
+        'explanation': 'copy-on-write contract of the add_* class methods over an arbitrary class lattice, for add_implicit_resolver one level deeper (no list that existed before is written unless it belongs to the own table of cls; tables of different classes share no list); module-init tables; API helper targets',
     },
     'C11': {
         'fronts': ['pyvc.fronts.effects:run_c11'],
@@ -44,9 +45,10 @@ PLAN = {
         'fronts': [],
         'bounded': [],
         'assumptions': ['the event source delivers a word of the event grammar (wf_events); check_event/peek_event/get_event are assumed against the ghost event sequence',
-                        'constructor protocol (PROTO) is assumed of registered constructors and of generator resumption',
+                        'constructor protocol (PROTO) is assumed of registered constructors and of generator resumption; it is PROVED of the five two-phase constructors of the safe loader (seq, map, set, omap, pairs: new empty container handed out before any child is constructed, nothing touched before the yield, protocol kept in the second phase); while a generator is suspended only what the protocol allows is assumed to change',
+                        'SafeConstructor.construct_mapping is used through an assumed contract (merge flattening is the bounded stand-in of C14)',
                         'descend_resolver / ascend_resolver / resolve are used through their frames only'],
-        'explanation': 'composer: alias = identity of the anchored node, define-before-use, duplicate rejection, node registered before its children, anchors reset per document; constructor: node->object cache, recursion guard, deep flag restored, caches reset per document',
+        'explanation': 'composer: alias = identity of the anchored node, define-before-use, duplicate rejection, node registered before its children, anchors reset per document; constructor: node->object cache, recursion guard, deep flag restored, caches reset per document; two-phase constructors yield the empty container first (recursive structures)',
     },
     'C09': {
         'fronts': [], 'bounded': [],
